@@ -244,11 +244,61 @@ def run(ctx):
                f"stale reads at {badr}" if badr else f"{len(r.reads)} reads COH/LAG", base)
     wrappers_delegate(ctx)
     aux_index_contracted(ctx, classes, base)
+    no_derived_cache(ctx, classes)
     try:
         from . import c14
         c14.builder_agreement(ctx)
     except ImportError:
         ctx.rep.note("builder sibling agreement (SIB-2) not available yet")
+
+
+def no_derived_cache(ctx, classes):
+    """CACHE-1.  The propagator objects are mutable dataclasses hashed by the values of their fields: assigning
+    `prop.dt = ...` on an existing object (a time-step ladder) makes jit retrace and every `self.dt` read takes the new
+    value.  A quantity derived from a field and stored at construction (`self.sqrt_dt = sqrt(self.dt)` in __post_init__)
+    keeps the old value: the step then mixes sqrt(dt_old) in the field shifts with dt_new in the constant and the one-body
+    propagator.  Positive witness: an attribute assigned in __post_init__ / __init__ from a declared field and read by
+    another method."""
+    import ast as _ast
+    p = ctx.p
+    seen_cls = []
+    for P in classes:
+        for q in p.classes[P].mro if P in p.classes else []:
+            if q in p.classes and p.classes[q].module == "propagation" and q not in seen_cls:
+                seen_cls.append(q)
+    fields = set()
+    for q in seen_cls:
+        fields |= {f.name for f in p.classes[q].own_fields}
+    derived = {}
+    for q in seen_cls:
+        for mname in ("__post_init__", "__init__"):
+            m = p.classes[q].methods.get(mname)
+            if m is None or m.node is None:
+                continue
+            for st in _ast.walk(m.node):
+                if isinstance(st, _ast.Assign):
+                    for tg in st.targets:
+                        if isinstance(tg, _ast.Attribute) and isinstance(tg.value, _ast.Name) and tg.value.id == "self":
+                            src = {n_.attr for n_ in _ast.walk(st.value) if isinstance(n_, _ast.Attribute) and
+                                   isinstance(n_.value, _ast.Name) and n_.value.id == "self" and n_.attr in fields
+                                   and n_.attr != tg.attr}
+                            if src:
+                                derived[tg.attr] = (q, mname, st.lineno, sorted(src))
+    bad = []
+    for q in seen_cls:
+        for mname, m in p.classes[q].methods.items():
+            if mname in ("__post_init__", "__init__") or m.node is None:
+                continue
+            for n_ in _ast.walk(m.node):
+                if isinstance(n_, _ast.Attribute) and isinstance(n_.ctx, _ast.Load) and isinstance(n_.value, _ast.Name) and \
+                        n_.value.id == "self" and n_.attr in derived:
+                    d = derived[n_.attr]
+                    bad.append(f"{q.split('.')[-1]}.{mname} line {n_.lineno} reads self.{n_.attr}, stored by "
+                               f"{d[0].split('.')[-1]}.{d[1]} (line {d[2]}) from self.{', self.'.join(d[3])}: stale once "
+                               f"that field is assigned on the object")
+    ctx.ob("CACHE-1", "propagators: no quantity derived from a field is cached at construction and read by the steps",
+           not bad, "; ".join(bad[:2]) or f"{len(seen_cls)} classes, {len(derived)} derived attribute(s) stored at construction, "
+           f"none read elsewhere", mod="propagation", line=1)
 
 
 def aux_index_contracted(ctx, classes, base):
